@@ -135,6 +135,7 @@ bool Hist::verify(const HNode& n, const char* props, const std::string& ctx) {
       size_t cc = bs ? cbor_bytestring_chunk_count(it) : cbor_string_chunk_count(it);
       cbor_item_t** ch = bs ? cbor_bytestring_chunks_handle(it) : cbor_string_chunks_handle(it);
       if (cc != n.kids.size()) return bad(fmt("chunk count %zu, model %zu", cc, n.kids.size()));
+      if (cc && !ch) return bad("chunk table pointer is NULL although the string has chunks");
       for (size_t i = 0; i < cc; i++) if (ch[i] != nodes[n.kids[i]].impl) return bad(fmt("chunk %zu is not the item the model holds", i));
       return true;
     }
@@ -145,6 +146,7 @@ bool Hist::verify(const HNode& n, const char* props, const std::string& ctx) {
       if (cbor_array_size(it) > cbor_array_allocated(it)) return bad("size exceeds allocated capacity");
       if (n.definite && cbor_array_allocated(it) != n.capacity) return bad(fmt("definite array capacity %zu, model %llu", cbor_array_allocated(it), (unsigned long long)n.capacity));
       cbor_item_t** h = cbor_array_handle(it);
+      if (!h && !n.kids.empty()) return bad("element storage pointer is NULL although the array has elements");
       for (size_t i = 0; i < n.kids.size(); i++) if (h[i] != nodes[n.kids[i]].impl) return bad(fmt("element %zu is not the item the model holds", i));
       return true;
     }
@@ -155,6 +157,7 @@ bool Hist::verify(const HNode& n, const char* props, const std::string& ctx) {
       if (cbor_map_size(it) > cbor_map_allocated(it)) return bad("size exceeds allocated capacity");
       if (n.definite && cbor_map_allocated(it) != n.capacity) return bad("definite map capacity differs");
       struct cbor_pair* h = cbor_map_handle(it);
+      if (!h && !n.kids.empty()) return bad("pair storage pointer is NULL although the map has pairs");
       for (size_t i = 0; i < n.kids.size() / 2; i++) if (h[i].key != nodes[n.kids[2 * i]].impl || h[i].value != nodes[n.kids[2 * i + 1]].impl) return bad(fmt("pair %zu is not what the model holds", i));
       return true;
     }
@@ -183,8 +186,8 @@ int Hist::adopt_tree(cbor_item_t* it, const MV& shape, const char* props, std::s
   // children via the documented handles
   std::vector<cbor_item_t*> ch;
   switch (cbor_typeof(it)) {
-    case CBOR_TYPE_ARRAY: for (size_t i = 0; i < cbor_array_size(it); i++) ch.push_back(cbor_array_handle(it)[i]); break;
-    case CBOR_TYPE_MAP: for (size_t i = 0; i < cbor_map_size(it); i++) { ch.push_back(cbor_map_handle(it)[i].key); ch.push_back(cbor_map_handle(it)[i].value); } break;
+    case CBOR_TYPE_ARRAY: if (cbor_array_size(it) && !cbor_array_handle(it)) { fail(props, "built-tree-shape", path + ": array with elements but NULL storage"); return id; } for (size_t i = 0; i < cbor_array_size(it); i++) ch.push_back(cbor_array_handle(it)[i]); break;
+    case CBOR_TYPE_MAP: if (cbor_map_size(it) && !cbor_map_handle(it)) { fail(props, "built-tree-shape", path + ": map with pairs but NULL storage"); return id; } for (size_t i = 0; i < cbor_map_size(it); i++) { ch.push_back(cbor_map_handle(it)[i].key); ch.push_back(cbor_map_handle(it)[i].value); } break;
     case CBOR_TYPE_TAG: if (it->metadata.tag_metadata.tagged_item) ch.push_back(it->metadata.tag_metadata.tagged_item); break;
     case CBOR_TYPE_BYTESTRING: if (cbor_bytestring_is_indefinite(it)) for (size_t i = 0; i < cbor_bytestring_chunk_count(it); i++) ch.push_back(cbor_bytestring_chunks_handle(it)[i]); break;
     case CBOR_TYPE_STRING: if (cbor_string_is_indefinite(it)) for (size_t i = 0; i < cbor_string_chunk_count(it); i++) ch.push_back(cbor_string_chunks_handle(it)[i]); break;
@@ -246,13 +249,19 @@ struct OpScope {
 
 static void payload_for(uint64_t seed, uint64_t len, int flavour, std::vector<uint8_t>& out) { gen_payload(seed, (size_t)len, flavour, out); }
 
+static MV raw_shape(const HOp& op) {
+  Rng r(op.c, "raw");
+  if (op.d & 8) { unsigned lim = impl_max_stack() > 1 ? impl_max_stack() - 1 : 1; unsigned depth = (unsigned)(20 + (op.c >> 8) % 230); if (depth > lim) depth = lim; return deep_mv(r, depth); }
+  GenProfile gp; gp.max_depth = 3; gp.max_kids = 4; return gen_mv(r, gp);
+}
+
 uint64_t Hist::dry_requests(const HOp& op) {
   // Only for ops that create something new without touching existing state: run once fault-free, undo, count.
   switch (op.code) {
     case OP_COPY: { int i = pick(M_ANY, op.a, true); if (i < 0 || !small_enough(pool[i], TREE_BYTES_MAX, 3000)) return ~0ull; sa_begin(FaultSpec()); cbor_item_t* c = cbor_copy(nodes[pool[i]].impl); if (c) cbor_decref(&c); return sa_end().requests; }
     case OP_SERIALIZE_ALLOC: { int i = pick(M_ANY, op.a, true); if (i < 0 || !small_enough(pool[i], (uint64_t)1 << 18, 4000)) return ~0ull; unsigned char* b = nullptr; size_t s = 0; sa_begin(FaultSpec()); cbor_serialize_alloc(nodes[pool[i]].impl, &b, &s); uint64_t r = sa_end().requests; if (b) sa_client_free(b); return r; }
     case OP_LOAD: { int i = pick(M_ANY, op.a, true); if (i < 0 || !small_enough(pool[i], TREE_BYTES_MAX, 3000)) return ~0ull; std::vector<uint8_t> by = ref_encode(to_value(pool[i])); struct cbor_load_result res; sa_begin(FaultSpec()); cbor_item_t* c = cbor_load(by.data(), by.size(), &res); if (c) cbor_decref(&c); return sa_end().requests; }
-    case OP_LOAD_RAW: { Rng r(op.c, "raw"); GenProfile gp; gp.max_depth = 3; gp.max_kids = 4; MV v = gen_mv(r, gp); std::vector<uint8_t> by = ref_encode(v); struct cbor_load_result res; sa_begin(FaultSpec()); cbor_item_t* c = cbor_load(by.data(), by.size(), &res); if (c) cbor_decref(&c); return sa_end().requests; }
+    case OP_LOAD_RAW: { MV v = raw_shape(op); std::vector<uint8_t> by = ref_encode(v); struct cbor_load_result res; sa_begin(FaultSpec()); cbor_item_t* c = cbor_load(by.data(), by.size(), &res); if (c) cbor_decref(&c); return sa_end().requests; }
     default: return ~0ull;
   }
 }
@@ -514,7 +523,7 @@ OpResult Hist::run_op(const HOp& op0) {
     case OP_LOAD: case OP_LOAD_RAW: {
       MV shape;
       if (op.code == OP_LOAD) { int xi = pick(M_ANY, op.a, true); if (xi < 0) break; if (!small_enough(pool[xi], TREE_BYTES_MAX, 3000)) break; shape = to_value(pool[xi]); }
-      else { Rng r(op.c, "raw"); GenProfile gp; gp.max_depth = 3; gp.max_kids = 4; shape = gen_mv(r, gp); }
+      else shape = raw_shape(op);
       if (ref_depth(shape) > impl_max_stack()) break;
       std::vector<uint8_t> by = ref_encode(shape);
       unsigned char* buf = (unsigned char*)malloc(by.size()); memcpy(buf, by.data(), by.size());
